@@ -1,20 +1,35 @@
 from props import job
 
 PROP = dict(
-    technique='model-based rapid state machine over the real bolt arbitrator log (level A) + crash enumeration: every effect of an uninterrupted close run is a stop point, restart on the same bolt file, outcome equality as sets (level B)',
+    technique='model-based rapid state machine over the real bolt arbitrator log (level A) + crash enumeration: every effect of an uninterrupted close run is a stop point, restart on the same bolt file, outcome equality as sets, sweeper inputs equal to the uninterrupted run and to the generated resolutions (level B; all channel kinds incl. simple taproot staging/final, real utxo nursery on a real nursery store for pre-anchor kinds)',
     level="fault_enumeration",
     rule=("Level B (TestVerifC13Crash): a C12-generated close scenario (<=4 HTLCs "
-          "on the three commitments; confirmed commitment in {ours, peer's "
-          "current, peer's pending, breach, coop}; optionally our own "
-          "chain-triggered broadcast first; optionally the peer claiming offered "
-          "HTLC outputs on chain) is run uninterrupted against the real bolt log, "
-          "then once per k in 1..W with the process dying right after the k-th "
-          "effect (every ArbitratorLog write, MarkChannelClosed, switch/beacon/"
-          "final-outcome/report/notification side effect) and restarted on the "
-          "same bolt file, plus sampled double crashes. One evaluation = one "
-          "(scenario, crash index) run. Non-trivial = the crash lands inside a "
-          "transition (the effect before it is neither a CommitState nor a "
-          "ResolveContract), or a double crash. Level A (TestVerifC13LogModel): "
+          "on the three commitments; channel kind in {legacy, tweakless, anchors "
+          "zero-fee, simple taproot staging, taproot final (half of the cases "
+          "taproot, a third of those with resolution blobs)}; confirmed commitment "
+          "in {ours, peer's current, peer's pending, breach, coop}; optionally our "
+          "own chain-triggered broadcast first; optionally the peer claiming "
+          "offered HTLC outputs on chain) is run uninterrupted against the real "
+          "bolt log, then once per k in 1..W with the process dying right after "
+          "the k-th effect (every ArbitratorLog write, MarkChannelClosed, switch/"
+          "beacon/final-outcome/report/notification side effect, every "
+          "NurseryStore write and nursery publish) and restarted on the same "
+          "bolt file, plus sampled double crashes. Oracles per crashed run: "
+          "outcome sets equal to the uninterrupted run (terminal state, contracts "
+          "left, upstream resolutions, final outcomes, reports, nursery hand-offs, "
+          "preimages), no new contradiction, resolved only with 0 contracts left; "
+          "every input handed to Sweeper.SweepInput (also by the nursery) carries "
+          "the sign descriptor (key, tweaks, witness/leaf script, control block, "
+          "tap tweak) and resolution blob the harness generated for that outpoint, "
+          "a taproot witness type of the right generation, a preimage that opens "
+          "the HTLC, and is identical (witness type, outpoint, CSV, CLTV, required "
+          "output, preimage, height hint, budget/deadline/exclusive group, sign "
+          "descriptor, blob) to what the uninterrupted run handed over for that "
+          "outpoint. One evaluation = one (scenario, crash index) run. Non-trivial "
+          "= the crash lands inside a transition (the effect before it is neither "
+          "a CommitState nor a ResolveContract), or a double crash. Labels chan=*, "
+          "taproot_htlc_resolvers, nursery=real|stub, nursery_completed, wt=* show "
+          "the class distribution. Level A (TestVerifC13LogModel): "
           "4-40 generated log operations incl. reopen against a map model; "
           "non-trivial = >=1 reopen and >=1 checkpoint or swap with contracts "
           "still stored."),
@@ -23,8 +38,11 @@ PROP = dict(
         "the arbitrator is not Start()ed: the harness goroutine plays channelAttendant (getStartState + progressStateMachineAfterRestart, handle*CloseEvent, advanceState on each resolutionSignal, launchResolvers per block), so schedules are deterministic",
         "a crash is modelled by muting: after the k-th effect every later durable write fails and every outward side effect of that process life is dropped; the zombie is then stopped and a fresh arbitrator is built on the same bolt file",
         "restart protocol as ChainArbitrator: channel not yet marked closed => started with its HTLC sets and the close event is re-delivered; marked closed => IsPendingClose/CloseType/ClosingHeight, empty HTLC sets",
-        "driven to completion: commit-sweep, anchor, breach resolvers; outgoing contest/timeout on a remote commitment (our timeout sweep or the peer's preimage claim); incoming contest timing out or claimed with a beacon preimage on a remote commitment; second-level timeout/success on an anchor (zero-fee) local commitment via the sweeper; dust and dangling fail-backs",
-        "NOT driven: the utxo nursery (legacy/tweakless local-commitment HTLC outputs are handed to IncubateOutputs and then stay unresolved in every run; equality of that stuck state is still compared), exit-hop invoice settlement (every received HTLC is a forward), mempool preimage detection, taproot resolvers, re-orgs, the BreachArbitrator (stubbed completion signal)",
+        "driven to completion: commit-sweep, anchor, breach resolvers; outgoing contest/timeout on a remote commitment (our timeout sweep or the peer's preimage claim); incoming contest timing out or claimed with a beacon preimage on a remote commitment; second-level timeout/success on an anchor (zero-fee) or taproot local commitment via the sweeper; second-level timeout/success on a legacy/tweakless local commitment via the utxo nursery; dust and dangling fail-backs. Every uninterrupted run ends StateFullyResolved",
+        "taproot: the C12 scenario is generated as an anchors/zero-fee channel and its resolutions are re-dressed as lnwallet dresses them for a taproot commitment (P2TR outputs, tapscript leaves as witness scripts, well-formed control blocks on every script-path sign descriptor and in the second-level witnesses, tap tweak on the anchor, optional resolution blobs); every byte string is a distinct function of (commitment, HTLC, role). Signatures are placeholders: validity of the spends is C05's subject, here only persistence/equality. FetchHistoricalChannel returns the taproot channel type and the delay/payment base points the commit-sweep resolver compares the sign key with. The peer's preimage claims and the world's answers to sweep requests have the taproot witness shapes (the answer is built from the offered input's leaf script, control block and preimage)",
+        "SignDescriptor.SignMethod is not compared (not persisted by lnd; the witness generators set it)",
+        "utxo nursery, 3 of 4 pre-anchor cases: a real UtxoNursery per process life on a real NurseryStore in the same bolt file, started before the arbitrator (reloadPreschool/reloadClasses after a restart); its store writes and PublishTransaction are crash points; confirmation notifications, block epochs and sweep results come from the stub world when pumped; FetchClosedChannel(s) from the world's closed bit. 1 of 4: a world-level stub (publishes the timeout tx at its CLTV, sweeps the second-level output CSV blocks after its confirmation) whose state survives restarts. Published second-level transactions confirm when pumped and only while the HTLC outpoint is unspent. An HTLC with an output is worth >= 1 sat (the nursery ignores zero-value outputs)",
+        "NOT driven: exit-hop invoice settlement (every received HTLC is a forward), mempool preimage detection, re-orgs (neither the arbitrator nor the resolvers document a behaviour for them), the BreachArbitrator (stubbed completion signal; its taproot tap tweaks live in its own retribution store), lease channels, blocks mined while the process is down",
         "sweeps confirm when the harness pumps them; the sweeper, notifier, switch, witness beacon are deterministic stubs whose state survives restarts like the chain / other subsystems would",
         "kvdb.Batch is routed to a plain Update (bbolt's 10ms batch timer removed); same atomicity",
         "outcome sets exclude the commitment transaction itself; NotifyChannelResolved stands for MarkChannelResolved + WipeHistory of ChainArbitrator",
@@ -35,7 +53,8 @@ PROP = dict(
             job("contractcourt", "^TestVerifC13Crash$", ["TestVerifC13Crash"], 50, shards=6,
                 flaky_is_violation=False, timeout=400),
             job("contractcourt", "^TestVerifC13Repro", ["TestVerifC13ReproRestartInContractClosed",
-                "TestVerifC13ReproResolvedCheckpoint", "TestVerifC13ReproContestOwnSweepPanic"], 1, shards=1, v=True),
+                "TestVerifC13ReproResolvedCheckpoint", "TestVerifC13ReproContestOwnSweepPanic",
+                "TestVerifC13ReproTaprootPreimageLost"], 1, shards=1, v=True),
         ],
         thorough=[
             job("contractcourt", "^TestVerifC13LogModel$", ["TestVerifC13LogModel"], 4000, shards=12,
@@ -43,7 +62,8 @@ PROP = dict(
             job("contractcourt", "^TestVerifC13Crash$", ["TestVerifC13Crash"], 350, shards=12,
                 env=dict(VERIF_C13_PAIRS=12), timeout=900, flaky_is_violation=False),
             job("contractcourt", "^TestVerifC13Repro", ["TestVerifC13ReproRestartInContractClosed",
-                "TestVerifC13ReproResolvedCheckpoint", "TestVerifC13ReproContestOwnSweepPanic"], 1, shards=1, v=True),
+                "TestVerifC13ReproResolvedCheckpoint", "TestVerifC13ReproContestOwnSweepPanic",
+                "TestVerifC13ReproTaprootPreimageLost"], 1, shards=1, v=True),
         ],
     ),
     also=["C12"],
